@@ -110,11 +110,31 @@ fn check(text: &[u8], rep: &mut Reporter, case_idx: u64) {
         schedules.push(Schedule::InterruptedAt(i));
         schedules.push(Schedule::ZeroAt(i));
     }
+    // compound faults (a short accept directly followed by an interruption or another short
+    // accept, two interruptions in a row, chunking with periodic interruptions): one fault
+    // handled correctly does not mean that two in a row are
+    if ncalls <= 80 {
+        for i in 0..ncalls {
+            for t in 1..=3 {
+                schedules.push(Schedule::ShortThenInterrupted(i, t));
+            }
+            schedules.push(Schedule::ShortTake(i, 1));
+            schedules.push(Schedule::ShortThenShort(i, 1));
+            schedules.push(Schedule::InterruptedTwice(i));
+        }
+        rep.count("mappings_with_compound_fault_schedules", 1);
+    }
+    for k in 1..=4 {
+        for period in [2usize, 3, 5] {
+            schedules.push(Schedule::ChunkWithInterrupts(k, period));
+        }
+    }
     // every schedule once with a plain sink and once with a sink whose write_vectored gathers
     let schedules: Vec<(Schedule, bool)> = schedules.iter().map(|s| (*s, false)).chain(schedules.iter().map(|s| (*s, true))).collect();
     let mut followups = 0u64;
     for (sch, vectored) in schedules {
         let mut sink = if vectored { FaultSink::new_vectored(sch) } else { FaultSink::new(sch) };
+        sink.limit = canonical.len() * 3 + 4096;
         let res = cur::write_cache_to(text, &mut sink);
         rep.count("evaluations", 1);
         rep.count("schedules", 1);
@@ -142,6 +162,11 @@ fn check(text: &[u8], rep: &mut Reporter, case_idx: u64) {
             Schedule::FailAt(_) => "failing sink",
             Schedule::InterruptedAt(_) => "interrupted sink",
             Schedule::ZeroAt(_) => "sink returning Ok(0)",
+            Schedule::ShortTake(..) => "sink short once",
+            Schedule::ShortThenInterrupted(..) => "sink short, then interrupted",
+            Schedule::ShortThenShort(..) => "sink short twice in a row",
+            Schedule::InterruptedTwice(_) => "sink interrupted twice in a row",
+            Schedule::ChunkWithInterrupts(..) => "chunked sink with periodic interruptions",
             Schedule::Full => "full",
         };
         let mk = |sink: &FaultSink| {
@@ -184,7 +209,7 @@ fn check(text: &[u8], rep: &mut Reporter, case_idx: u64) {
                 if !is_prefix {
                     rep.violation(case_idx, "sink", &format!("after a reported failure the accepted bytes are not a prefix of the canonical serialisation ({kind})"), mk(&sink));
                 }
-                if matches!(sch, Schedule::Chunk(_) | Schedule::ShortOnce(_)) {
+                if matches!(sch, Schedule::Chunk(_) | Schedule::ShortOnce(_) | Schedule::ShortTake(..) | Schedule::ShortThenShort(..)) {
                     // failing on a sink that merely accepts fewer bytes per call is not forbidden
                     // by the statement (its first clause is conditional on success); counted only
                     rep.count("writes_failed_on_a_merely_short_sink", 1);
